@@ -165,6 +165,18 @@ def multiscale_collections(ctx):
     return out
 
 
+def shared_id_collections():
+    """Several boxes filed under one identifier (a path in several pieces, one id per layer):
+    the answer is the set of identifiers of intersecting boxes - an identifier is in it when
+    *any* of its boxes is hit.  Identifiers Python holds equal (1, 1.0, True) are one."""
+    out = []
+    out.append([("A", (0, 0, 10, 0)), ("A", (10, 10, 20, 10)), ("B", (5, 5, 6, 6))])
+    out.append([(k % 3, (k, k % 4, k + 1, k % 4 + 1)) for k in range(12)])
+    out.append([(1, (0, 0, 1, 1)), (1.0, (5, 5, 6, 6)), (True, (9, 0, 10, 1)), (2, (5, 0, 6, 1))])
+    out.append([("p", (k, 0, k, 10)) for k in range(0, 40, 2)] + [("q", (0, k, 40, k)) for k in range(1, 9, 3)])
+    return out
+
+
 def crowded_collections():
     """257 and more boxes that all fall into one quadrant (nested, duplicated, sharing a corner,
     strokes through one point): nothing separates them, the node must become a leaf - at any
@@ -323,7 +335,7 @@ def run(ctx):
         jobs.append(("subset", chunk))
     for chunk in core.split(multiscale_collections(ctx), 16):
         jobs.append(("multiscale", chunk))
-    for crowd in crowded_collections():
+    for crowd in crowded_collections() + shared_id_collections():
         jobs.append(("multiscale", [crowd]))
     for huge in huge_collections(ctx.thorough):
         jobs.insert(0, ("huge", [huge]))        # the long ones first
